@@ -64,6 +64,32 @@ Definition sweep (g : graph) (marked : list addr) : graph :=
 Definition gc_once (g : graph) (roots : list addr) : option graph :=
   match mark g roots with Some m => Some (sweep g m) | None => None end.
 
+(* ---- generations (go/store/types/value_store.go GC, GCMode_Default; nbs GenerationalNBS.OldGenGCFilter) ----
+   The store is an old generation plus a new generation.  A default collection
+     1. marks from the old-generation roots (branch, remote-tracking and internal refs) with the filter
+        "already in the old generation": such a chunk is neither visited nor expanded; what is marked is copied
+        into the old generation (AddChunksToStore);
+     2. marks from all other roots (working sets, tags, stashes, the store root, what the keeper collected) with the
+        filter "in the (extended) old generation"; what is marked becomes the new generation (SwapChunksInStore).
+   GCMode_Full is the same with an empty filter in step 1. *)
+Definition gabsent (s : list addr) (h : addr) : bool := negb (memb h s).
+Definition gprune (g : graph) (stop : list addr) : graph :=
+  map (fun p => (fst p, filter (gabsent stop) (snd p))) g.
+Definition mark_pruned (g : graph) (stop start : list addr) : option (list addr) :=
+  mark (gprune g stop) (filter (gabsent stop) start).
+
+Definition gc_generational (g : graph) (old : list addr) (old_roots new_roots : list addr)
+  : option (list addr * list addr) :=
+  match mark_pruned g old old_roots with
+  | Some a =>
+      let old' := a ++ old in
+      match mark_pruned g old' new_roots with
+      | Some b => Some (old', b)
+      | None => None
+      end
+  | None => None
+  end.
+
 (* ---- the collection running concurrently with sessions ---- *)
 Inductive phase := Idle | Marking | Finalizing.
 
